@@ -30,7 +30,7 @@ suite_ok=$(echo "$suite" | grep -c "exit=0")
 echo "demo on unchanged code passes: $base_ok | change builds: $build_ok | demo with change fails: $mut_fail | existing suite with change passes: $suite_ok"
 results=""
 for c in $checks; do
-  o=$(VERIF_REPO="$W" /verif/check "$c" 2>/tmp/seedchk.err | grep -E "^(VIOLATION|KNOWN-FINDING)" | head -2 | cut -c1-500)
+  o=$(VERIF_REPO="$W" /verif/check "$c" 2>/tmp/seedchk.err | grep -E "^(DETAIL|VIOLATION|KNOWN-FINDING)" | head -2 | cut -c1-500)
   rc=${PIPESTATUS[0]}
   code=$(VERIF_REPO="$W" true; echo $rc)
   echo "check $c -> $( [ -n "$o" ] && echo "$o" || tail -1 /tmp/seedchk.err | cut -c1-200 )"
